@@ -264,17 +264,8 @@ func (x *ExprEnv) binary(n *ast.BinaryExpr) tval {
 		return tval{t: "(not " + x.eqTerm(a, b) + ")", typ: bt}
 	case token.LSS, token.LEQ, token.GTR, token.GEQ:
 		if srt == "Str" {
-			e.d.decl("strlt", "(Str Str) Bool")
-			switch n.Op {
-			case token.LSS:
-				return tval{t: "(strlt " + a.t + " " + b.t + ")", typ: bt}
-			case token.GTR:
-				return tval{t: "(strlt " + b.t + " " + a.t + ")", typ: bt}
-			case token.LEQ:
-				return tval{t: "(not (strlt " + b.t + " " + a.t + "))", typ: bt}
-			default:
-				return tval{t: "(not (strlt " + a.t + " " + b.t + "))", typ: bt}
-			}
+			e.d.decl("strord", "(Str) Int")
+			return tval{t: "(" + n.Op.String() + " (strord " + a.t + ") (strord " + b.t + "))", typ: bt}
 		}
 		return tval{t: "(" + n.Op.String() + " " + a.t + " " + b.t + ")", typ: bt}
 	case token.ADD:
